@@ -124,6 +124,88 @@ def run(ck):
         # element indexing / unchecked access of memory is not an accepted idiom
         raw = [(bi, t) for (bi, t) in f.calls(r"get_unchecked(_mut)?$|slice::from_raw_parts") if ("arg", mem[0]) in f.origins(t["args"][0])]
         ck.ob("BOUNDS", p, "no-unchecked-access", not raw, "no get_unchecked/from_raw_parts on linear memory", f.loc(), nontrivial=False)
+    # exactness of the tests: a test that is stricter than the access it guards is still memory safe, but makes an access that
+    # ends exactly at the end of memory trap (pointers and lengths INSIDE memory must not trap)
+    EXACT_EXCEPTIONS = {
+        "concordium_smart_contract_engine::v0::host::get_receive_sender":
+            "tests `start < len` before serialising into memory[start..]; the real bound is enforced by the write failing on a short slice (an address is never 0 bytes long, so start == len fails either way)",
+    }
+    ntests = 0
+    for p in sorted(c.paths()):
+        if "{closure" in p or "::utils::TestHost" in p or re.search(r"utils::.*Host<.*>>::call$", p):
+            continue
+        bs = c.get_all(p)
+        if len(bs) != 1:
+            continue
+        f = Fn(bs[0])
+        mem = [l for l, nm in f.names().items() if nm == "memory" and l <= f.argc and re.search(r"\[u8\]|Vec<u8>", f.locals[l])]
+        if not mem:
+            continue
+        for k, (cb, g, exact, d) in enumerate(rules.len_tests_exact(f, mem[0], rules.slice_sites(f, mem[0]))):
+            ntests += 1
+            if not exact and p in EXACT_EXCEPTIONS:
+                ck.ob("BOUNDS", p, "length-test-exact#%d" % k, True, "documented exception: " + EXACT_EXCEPTIONS[p], f.loc(cb), nontrivial=False)
+                continue
+            ck.ob("BOUNDS", p, "length-test-exact#%d" % k, exact, d if exact else "over-strict or shifted bounds test: " + d + " (an access ending exactly at the end of memory traps)", f.loc(cb))
+    ck.floor("BOUNDS", "enforced offset-vs-memory-length tests guarding slices", ntests, 47)
+
+    # a range whose end is clamped to the length of the data being read (end = min(offset + length, data.len())) is not
+    # ordered by construction: offset may exceed the length, and data[offset..end] with offset > end panics
+    nord = 0
+    for p in sorted(c.paths()):
+        if not re.search(r"::v[01]::host::[a-z_0-9]+$", p):
+            continue
+        for b in c.get_all(p):
+            f = Fn(b)
+            for k, (bi, t) in enumerate(f.calls(r"ops::Index::index$|ops::IndexMut::index_mut$")):
+                rb = rules.range_bounds(f, t["args"][1])
+                if rb is None or rb[0] != "range" or rb[1] is None or rb[2] is None:
+                    continue
+                oe = f.origins(rb[2], deep=True)
+                if not has_call_origin(oe, r"cmp::min$|Ord::min$"):
+                    continue
+                # ... clamped to the length of the very data that is sliced
+                base_args = set(a for a in f.origins(t["args"][0], deep=True) if a[0] == "arg")
+                len_of_base = False
+                for (lb_, lt_) in f.calls(r"::len$"):
+                    if ("call", lt_["f"]["path"], lb_) in oe and base_args & set(a for a in f.origins(lt_["args"][0], deep=True) if a[0] == "arg"):
+                        len_of_base = True
+                if not len_of_base:
+                    continue
+                nord += 1
+                ls, le = rules.root_local(f, rb[1]), rules.root_local(f, rb[2])
+                ok, why = False, "no enforced comparison of the range's start with its end"
+                for cx in rules.comparisons(f):
+                    if cx["kind"] != "bin" or not f.dominates(cx["bb"], bi):
+                        continue
+                    a, b2 = rules.root_local(f, cx["a"]), rules.root_local(f, cx["b"])
+                    info = {}
+                    rel, d = rules.cmp_rejects(f, cx, info)
+                    if rel is None or "pass_target" not in info or not f.dominates(info["pass_target"], bi):
+                        continue
+                    if (a, b2) == (le, ls):
+                        rel = rules.FLIP[rel]
+                    elif (a, b2) != (ls, le):
+                        continue
+                    if rel == "Gt":
+                        ok, why = True, "rejects exactly when start > end (bb%d)" % cx["bb"]
+                    else:
+                        why = "the start/end test rejects when start %s end: reading zero bytes at the very end is refused, or an inverted range is let through" % rel
+                ck.ob("BOUNDS", p, "clamped-range-ordered#%d" % k, ok, why, f.loc(bi))
+    ck.floor("BOUNDS", "ranges clamped with min(.., len)", nord, 3)
+
+    # v0 action tree: both operands of a combinator must refer to existing actions
+    for nm in ("combine_and", "combine_or"):
+        for p in [x for x in c.paths() if re.search(r"::v0::.*Outcome::" + nm + "$", x)]:
+            f = Fn(c.get(p))
+            good = set()
+            for cx in rules.comparisons(f):
+                rel, d = rules.cmp_rejects(f, cx)
+                oa, ob = f.origins(cx["a"], deep=True), f.origins(cx["b"], deep=True)
+                if rel == "Ge" and has_call_origin(ob, r"::len$"):
+                    good |= set(a[1] for a in oa if a[0] == "arg")
+            ck.ob("CMP", p, "both-operands-must-exist", {2, 3} <= good, "rejects when l >= number of actions and when r >= number of actions (operands tested: %s)" % sorted(good), f.loc())
+
     ck.floor("BOUNDS", "linear-memory slice sites", nsites, 51)
     ck.floor("BOUNDS", "host functions slicing memory", nfun, 30)
 
